@@ -35,6 +35,20 @@ func injectFamily(tier string) *FamilySpec {
 	return fs
 }
 
+// negativeControlFamily: the INJECT programs whose only special construct sits inside a nested plain
+// closure (or is a yield-free native range loop): they belong to the supported subset, so C11 demands
+// that they compile and build.
+func negativeControlFamily(tier string) *FamilySpec {
+	all := injectFamily(tier)
+	fs := &FamilySpec{Name: "NC", Reductions: all.Reductions, Template: all.Template}
+	for _, p := range all.Progs {
+		if isNegativeControl(p.Key) {
+			fs.Progs = append(fs.Progs, p)
+		}
+	}
+	return fs
+}
+
 func rejectFamily() *FamilySpec {
 	sp := handSpec("REJECT", "reject.go.txt")
 	sp.NoRef, sp.DeriveRef, sp.NoTmp = true, false, true
